@@ -6,6 +6,8 @@ VERIF = os.path.dirname(os.path.dirname(os.path.abspath(__file__)))
 
 COMMON = "Trusted: TLC, the Go driver's conversion between biogo values and specification records, Go's %v float formatting for GFF scores, record digests for files above 1.5 kB. Reader/spec disagreements outside what the property constrains are model drift, not verdicts."
 
+SEQNOTE = "Trusted: the Go driver's observation of the containers through the public API (Row(i).At, Column/ColumnQL, Rows/Len/Start/End, Consensus). Column-stored alignments are exercised at offset 0 with >= 1 column; strand judged for RevComp/Reverse only."
+
 CHECKS = {
     "C11": dict(
         technique="TLA+ refinement check (TLC) of implementation-shaped sorter against abstract sorter; "
@@ -138,6 +140,57 @@ CHECKS = {
         note="Trusted: Go's float64 to (mantissa, exponent) rendering in the driver. Accuracy beyond 4 significant digits "
              "is not decided; a score of one kind under an encoding of the other kind is drift only.",
         ref="DESIGN.md §6 C18"),
+    "C05": dict(
+        technique="TLA+ grid model of the sequence containers; TLC checks the RevComp/Reverse laws over all tiny containers "
+                  "and refutes the as-found re-offsetting; model histories and random histories replayed on the real types, "
+                  "every observation judged by TLC",
+        text="Containers.tla models linear, column-stored and row-stored sequences as one partial grid with an edit "
+             "function; SeqMC.tla checks for every container of <= 2x2 cells (3 rows in the thorough tier), offsets -1..2 "
+             "and short edit histories that RevComp is reversal + complement with qualities travelling, strand negated and "
+             "every row mirrored about the span, that RevComp twice is the identity and Reverse twice restores the "
+             "letters; the as-found Multi re-offsetting is refuted. The histories of the bounded model and random "
+             "histories (6 rows x 30 columns, 6 edits, Clone-then-mutate probes, Set) run on linear.Seq/QSeq, "
+             "alignment.Seq/QSeq and multi.Multi; SeqTrace.tla applies each edit to the model and compares the row view, "
+             "the column view, Start/End/Len and strands.",
+        note=SEQNOTE, ref="DESIGN.md §6 C05-C07"),
+    "C06": dict(
+        technique="positional TLA+ definitions of Truncate/Join/Stitch/Compose/Trim; TLC checks the code-shaped "
+                  "algorithms against them on all small inputs and refutes the as-found Trim and Compose; real calls judged by TLC",
+        text="SeqModel.tla defines the sequtils operations positionally; SeqMC.tla (PureLaws) checks on all small inputs "
+             "that the running-sum Trim returns a maximal window, that Compose with a scratch reverser equals the "
+             "declarative concatenation, that Stitch is the ascending union whatever the order of the features, and the "
+             "Truncate cases incl. circular wrap; the as-found Trim (start of the last run) and Compose (first reversed "
+             "segment reused) are refuted. Thousands of random calls on linear.Seq/QSeq with negative/zero/positive "
+             "offsets, circular sources, overlapping unsorted partly-outside features in both orientations are judged by "
+             "SeqTrace.tla: result, error-not-panic, source unchanged, no shared storage.",
+        note=SEQNOTE, ref="DESIGN.md §6 C05-C07"),
+    "C07": dict(
+        technique="TLA+ grid model with AppendColumns/AppendEach/Delete/Add/Flush/Truncate/Subseq/Clone edits; TLC checks "
+                  "the edit laws over all tiny containers; histories replayed on the real containers with aliasing probes, "
+                  "row and column views judged by TLC",
+        text="SeqMC.tla checks that appends extend each row by exactly the letters supplied (column-stored alignments "
+             "padding with the gap), Delete removes exactly the row, Flush pads to the span keeping every letter's "
+             "position, Truncate keeps the requested columns, and the shape of column-stored alignments is preserved. "
+             "Model histories and random histories run on alignment.Seq, alignment.QSeq and multi.Multi (plain and quality "
+             "rows, arbitrary row offsets); after every edit the harness overwrites the buffers it passed in, and "
+             "SeqTrace.tla requires the row view, the column view (with gap fill), Rows/Len/Start/End and the consensus of "
+             "unanimous columns to be those of the model's grid.",
+        note=SEQNOTE, ref="DESIGN.md §6 C05-C07"),
+    "C20": dict(
+        technique="TLA+ model of exon-set updates and of the position/orientation mapping; TLC checks tiling and atomicity "
+                  "of rejected updates over all small layouts and refutes the in-place sort; emitted cases and random gene "
+                  "models run on the real types and judged by TLC",
+        text="Gene.tla models Exons.Add / SetExons with accepted and rejected outcomes (spare capacity included), introns, "
+             "UTR5/CDS/UTR3 and the four mapping functions over nesting chains; TLC checks over all cuts of transcripts of "
+             "length <= 8 (9 thorough), all CDS bounds, chains of depth <= 4 and all update histories that exons and "
+             "introns tile, UTR/CDS tile in orientation order, mappings compose, conversions are inverse, and a rejected "
+             "update leaves the exon set unchanged; the as-found in-place sort and two other wrong variants are refuted. "
+             "The emitted cases, enumerated histories with spare capacity as the runtime leaves it, chains of 998..1003 "
+             "features and random gene models up to 1500 exons run on NonCodingTranscript, CodingTranscript and Exons; "
+             "GeneTrace.tla recomputes every result.",
+        note="Trusted: driver's reading of values through exported methods, pointer identity for locations. Zero-length "
+             "exons with equal starts (unstable sort) are assumed away.",
+        ref="DESIGN.md §6 C20"),
 }
 
 NOT_YET = {}
